@@ -2216,6 +2216,7 @@ func (s *BgpServer) StopBgp(ctx context.Context, r *api.StopBgpRequest) error {
 			l.Close()
 		}
 		s.bgpConfig.Global = oc.Global{}
+		s.roaTable.LocalAS = 0
 		return nil
 	}, false)
 	if err != nil {
@@ -2678,6 +2679,7 @@ func (s *BgpServer) StartBgp(ctx context.Context, r *api.StartBgpRequest) error 
 			return err
 		}
 		s.bgpConfig.Global = *c
+		s.roaTable.LocalAS = c.Config.As
 		// update route selection options
 		table.SelectionOptions = c.RouteSelectionOptions.Config
 		table.UseMultiplePaths = c.UseMultiplePaths.Config
